@@ -128,6 +128,8 @@ def run(ctx):
     ctx.extra['exhaustive_bound'] = 'domain {0,1,2}: n=1 all sets of <=3 sequences; n=2 all sets of <=%d sequences' % ctx.budget(2, 3)
     # random larger, biased towards reducible families
     for _ in range(ctx.budget(350, 6000)):
+        if ctx.expired():
+            break
         dom = rng.choice([D, D, D, D, [0, 1], [0, 1, 2, 3]])
         n = rng.randint(1, (5 if ctx.tier == "quick" else 6) if len(dom) <= 3 else 4)
         seqs = set()
